@@ -127,6 +127,28 @@ def run(ctx: Ctx) -> Result:
         if fits and len(msg):
             i = rng.choice([j for j in idx if len(cache[f'sigfield{j}'])]); c3 = dict(cache); c3[f'sigfield{i}'] = flip(cache[f'sigfield{i}'], rng)
             cases.append(('limits: corrupt covered field', c2, c3, P(sig) + P(pk) + op('CHECK_SIG') + b'\x00', 'F'))
+    # "changes to excluded fields are irrelevant" - also their length: a flag-excluded field longer than the item limit (it never
+    # becomes a stack item) changes nothing for GET_MESSAGE, SIGN and CHECK_SIG as long as the covered message fits
+    for _ in range(ctx.n(40, 300)):
+        lim = rng.choice([65, 100, 1024, 1024])
+        c2 = vmrun.Cfg(); c2.max_item_size = lim
+        i_cov, i_exc = rng.sample(range(1, 9), 2)
+        cache = {f'sigfield{i_cov}': V.rbytes(rng, rng.choice([0, 1, lim // 2, lim - 1, lim])), f'sigfield{i_exc}': V.rbytes(rng, rng.choice([lim, lim + 1, 2 * lim, 2000]))}
+        if rng.random() < .5: cache = dict(reversed(list(cache.items())))
+        flag = (1 << (i_exc - 1)) | (rng.getrandbits(8) & ~(1 << (i_cov - 1)) & 0xff if rng.random() < .3 else 0)
+        ki = rng.randrange(len(keys.sks)); sk, pk, seed = keys.sks[ki], keys.pks[ki], keys.seeds[ki]
+        msg = ref_msg(cache, flag); sigf = sk.sign(msg).signature + bytes([flag])
+        cases.append(('long excluded field: CHECK_SIG honest', c2, cache, P(sigf) + P(pk) + op('CHECK_SIG') + bytes([rng.choice([flag, 0xff])]), 'T'))
+        cases.append(('long excluded field: SIGN then CHECK_SIG', c2, cache, P(seed) + op('SIGN') + bytes([flag]) + P(pk) + op('CHECK_SIG') + b'\xff', 'T'))
+        cases.append(('long excluded field: GET_MESSAGE', c2, cache, op('GET_MESSAGE') + bytes([flag]), ('stack', (msg.hex() or 'e'))))
+    # SIGN replaces the seed by the signature: it needs no free stack slot (a stack that is exactly full still signs)
+    for _ in range(ctx.n(30, 200)):
+        k = rng.choice([1, 1, 2, 5, 1024])
+        c2 = vmrun.Cfg(); c2.max_items = k
+        cache = presence(rng); flag = rng.choice([0, 0, 1, 0x80, rng.getrandbits(8)])
+        ki = rng.randrange(len(keys.sks)); sk, pk, seed = keys.sks[ki], keys.pks[ki], keys.seeds[ki]
+        sigf = sk.sign(ref_msg(cache, flag)).signature + (bytes([flag]) if flag else b'')
+        cases.append(('SIGN on a full stack', c2, cache, op('FALSE') * (k - 1) + P(seed) + op('SIGN') + bytes([flag]), ('stack', sigf.hex())))
     # with a signature-extension plugin installed: every signature instruction runs it exactly once (SIGN must not run it again
     # through its inner GET_MESSAGE), so that a plugin that is not idempotent still sees signing and checking cover the same bytes
     cfgp = vmrun.Cfg(); cfgp.sigexts = ('l1',)
